@@ -9,7 +9,8 @@ pub enum ProvErr {
     ForeignOther(&'static str),
 }
 
-pub const FOREIGN_OTHER: [&str; 5] = ["NotFound", "PermissionDenied", "TimedOut", "Other", "str"];
+pub const FOREIGN_OTHER: [&str; 12] = ["NotFound", "PermissionDenied", "TimedOut", "Other", "str", "Interrupted", "WouldBlock", "ConnectionReset",
+    "UnexpectedEof", "ChainInterrupted", "SigIOInterrupted", "SigIOWouldBlock"];
 
 #[derive(Clone, Debug, PartialEq)]
 pub enum Answer {
@@ -83,6 +84,7 @@ impl Case {
         // the model knows one kind of foreign error: whatever its type, it is an internal failure
         let perr = |e: &ProvErr| match e {
             ProvErr::Sig(k) => format!("E{}", k),
+            ProvErr::ForeignOther(k) if k.starts_with("SigIO") => "EIO".to_string(),
             ProvErr::Foreign | ProvErr::ForeignOther(_) => "F".to_string(),
         };
         let ready = match &self.ready_err {
